@@ -68,3 +68,46 @@ Theorem C06_join_drops_only_written_cells :
     In e (log w) \/ exists id, In id ids /\ e = EODrop (TOut id) true.
 Proof. exact drop_outputs_only_written. Qed.
 Print Assumptions C06_join_drops_only_written_cells.
+
+(** ** whole histories: the ledger of children.  [held_ids]: the children sitting in the slots of
+    the collection; [dropped_in]: every in-crate child drop logged so far; [taken_in]: the
+    children the constructor placed and the children of pushes answered Ok; [pulled_in]: the
+    items pulled from upstream.  For every history
+
+        held now ++ dropped so far   is a permutation of   taken ++ pulled
+
+    — no child is lost, none is dropped that was not taken. *)
+From FB Require Import Step UnboundedProofs StepProofs Reach LedgerProofs.
+From Coq Require Import Permutation.
+Theorem C06_children_ledger :
+  forall (P : params), params_ok P -> forall (ops : list op),
+  Permutation (held_ids (st_coll (reach P ops)) ++ dropped_in P init_state ops)
+              (taken_in P init_state ops ++ pulled_in P init_state ops).
+Proof. exact ledger. Qed.
+Print Assumptions C06_children_ledger.
+
+(** with distinct ids (the history language numbers the children): no child is dropped twice,
+    and none is dropped while it is still held *)
+Theorem C06_no_child_dropped_twice :
+  forall (P : params), params_ok P -> forall (ops : list op),
+  NoDup (taken_in P init_state ops ++ pulled_in P init_state ops) ->
+  NoDup (held_ids (st_coll (reach P ops)) ++ dropped_in P init_state ops).
+Proof. exact no_double_drop. Qed.
+Print Assumptions C06_no_child_dropped_twice.
+
+(** once the collection is gone (dropped, or never holding anything), every child the crate took
+    has been dropped — at whatever point of the history the drop happened *)
+Theorem C06_every_child_dropped_once_the_collection_is_gone :
+  forall (P : params), params_ok P -> forall (ops : list op),
+  held_ids (st_coll (reach P ops)) = [] ->
+  Permutation (dropped_in P init_state ops) (taken_in P init_state ops ++ pulled_in P init_state ops).
+Proof. exact all_dropped_when_gone. Qed.
+Print Assumptions C06_every_child_dropped_once_the_collection_is_gone.
+
+(** the drops of the ledger are the drop events the history shows *)
+Theorem C06_ledger_reads_the_events :
+  forall (P : params) (s : state) (o : op),
+  is_dead (st_coll s) = false ->
+  Permutation (cdr (snd (step_op P s o))) (cdr (log (st_world (fst (step_op P s o))))).
+Proof. exact cdr_events_of_step. Qed.
+Print Assumptions C06_ledger_reads_the_events.
